@@ -112,6 +112,36 @@ type Atom struct {
 	Eq bool   `json:"eq,omitempty"` // the operator is == or !=
 	L  string `json:"l,omitempty"`
 	R  string `json:"r,omitempty"`
+	// the IR nodes of the atom whose DSL form takes a variable, as (op name, variable), and the variables that are the argument of
+	// Type.IdenticalTo: the input of the Coq model, which decides with the regenerated flag table which of them the loader records
+	Uses  [][2]string `json:"uses"`
+	Extra []string    `json:"extra"`
+	Decl  bool        `json:"-"` // the atom calls the custom filter function flt
+}
+
+var clsOp = map[string]string{"text": "VarText", "line": "VarLine", "size": "VarTypeSize", "valueint": "VarValueInt"}
+
+// u: the uses of an atom as (op, variable) pairs
+func u(pairs ...string) [][2]string {
+	out := [][2]string{}
+	for i := 0; i+1 < len(pairs); i += 2 {
+		out = append(out, [2]string{pairs[i], pairs[i+1]})
+	}
+	return out
+}
+
+func compileAlt(src string) Alt {
+	a := Alt{Src: src, Vars: []string{}}
+	p, info, err := gogrep.Compile(gogrep.CompileConfig{Fset: token.NewFileSet(), Src: src, WithTypes: true})
+	if err == nil {
+		a.OK = true
+		a.Tag = int(p.NodeTag())
+		for nm := range info.Vars {
+			a.Vars = append(a.Vars, nm)
+		}
+		sort.Strings(a.Vars)
+	}
+	return a
 }
 
 type operand struct {
@@ -173,10 +203,11 @@ func genBinaryAtom(rng *rand.Rand) Atom {
 	if rng.Intn(2) == 0 {
 		op = []string{"==", "!="}[rng.Intn(2)]
 	}
-	a := Atom{Src: l.src + " " + op + " " + r.src, Chk: "binary", Eq: op == "==" || op == "!=", L: l.cls, R: r.cls, Vars: []string{}}
+	a := Atom{Src: l.src + " " + op + " " + r.src, Chk: "binary", Eq: op == "==" || op == "!=", L: l.cls, R: r.cls, Vars: []string{}, Uses: u(), Extra: []string{}}
 	for _, o := range []operand{l, r} {
 		if o.v != "" {
 			a.Vars = append(a.Vars, o.v)
+			a.Uses = append(a.Uses, [2]string{clsOp[o.cls], o.v})
 		}
 	}
 	return a
@@ -190,6 +221,7 @@ type RuleDesc struct {
 	At      string `json:"at"`
 	Report  string `json:"report"`
 	Suggest string `json:"suggest"`
+	Probe   string `json:"probe,omitempty"` // op:variable of the systematic bound-variable probes
 }
 
 var synPats = []string{
@@ -209,6 +241,28 @@ var verPool = []string{"1.16", "1.2", "1", "1.x", "1.16.3", "", ".", "1.", ".5",
 func pick(rng *rand.Rand, xs []string) string { return xs[rng.Intn(len(xs))] }
 
 func genAtom(rng *rand.Rand) Atom {
+	a := genAtom1(rng)
+	if a.Uses == nil {
+		a.Uses = u()
+	}
+	if a.Extra == nil {
+		a.Extra = []string{}
+	}
+	if a.Vars == nil {
+		a.Vars = []string{}
+	}
+	return a
+}
+
+func genAtom1(rng *rand.Rand) Atom {
+	if len(varOps) > 0 && rng.Intn(3) == 0 { // any op of the regenerated table that takes a variable
+		a, err := opAtom(rng, varOps[rng.Intn(len(varOps))], pick(rng, varPool))
+		if err != nil {
+			fmt.Fprintln(os.Stderr, "c06:", err)
+			os.Exit(3)
+		}
+		return a
+	}
 	v, w := pick(rng, varPool), pick(rng, varPool)
 	q := func(s string) string { return fmt.Sprintf("%q", s) }
 	mv := fmt.Sprintf("m[%q]", v)
@@ -218,43 +272,43 @@ func genAtom(rng *rand.Rand) Atom {
 	}
 	switch rng.Intn(17) {
 	case 0:
-		return Atom{Src: mv + ".Pure", Vars: []string{v}}
+		return Atom{Src: mv + ".Pure", Vars: []string{v}, Uses: u("VarPure", v)}
 	case 1:
-		return Atom{Src: mv + `.Text == "a"`, Vars: []string{v}}
+		return Atom{Src: mv + `.Text == "a"`, Vars: []string{v}, Uses: u("VarText", v), Chk: "binary", Eq: true, L: "text", R: "lit"}
 	case 2:
-		return Atom{Src: `"a" != ` + mv + `.Text`, Vars: []string{v}}
+		return Atom{Src: `"a" != ` + mv + `.Text`, Vars: []string{v}, Uses: u("VarText", v), Chk: "binary", Eq: true, L: "lit", R: "text"}
 	case 3:
-		return Atom{Src: mv + ".Type.Size > 4", Vars: []string{v}}
+		return Atom{Src: mv + ".Type.Size > 4", Vars: []string{v}, Uses: u("VarTypeSize", v), Chk: "binary", Eq: false, L: "size", R: "lit"}
 	case 4:
-		return Atom{Src: mv + ".Line == " + mw + ".Line", Vars: []string{v, w}}
+		return Atom{Src: mv + ".Line == " + mw + ".Line", Vars: []string{v, w}, Uses: u("VarLine", v, "VarLine", w), Chk: "binary", Eq: true, L: "line", R: "line"}
 	case 5:
-		return Atom{Src: mv + ".Type.IdenticalTo(" + mw + ")", Vars: []string{v, w}}
+		return Atom{Src: mv + ".Type.IdenticalTo(" + mw + ")", Vars: []string{v, w}, Uses: u("VarTypeIdenticalTo", v), Extra: []string{w}}
 	case 6:
 		a := pick(rng, kindPool)
-		return Atom{Src: mv + ".Type.OfKind(" + q(a) + ")", Vars: []string{v}, Chk: "kind", Arg: a}
+		return Atom{Src: mv + ".Type.OfKind(" + q(a) + ")", Vars: []string{v}, Uses: u("VarTypeOfKind", v), Chk: "kind", Arg: a}
 	case 7:
 		a := pick(rng, kindPool)
-		return Atom{Src: mv + ".Type.Underlying().OfKind(" + q(a) + ")", Vars: []string{v}, Chk: "kind", Arg: a}
+		return Atom{Src: mv + ".Type.Underlying().OfKind(" + q(a) + ")", Vars: []string{v}, Uses: u("VarTypeUnderlyingOfKind", v), Chk: "kind", Arg: a}
 	case 8:
 		a := pick(rng, objPool)
-		return Atom{Src: mv + ".Object.Is(" + q(a) + ")", Vars: []string{v}, Chk: "object", Arg: a}
+		return Atom{Src: mv + ".Object.Is(" + q(a) + ")", Vars: []string{v}, Uses: u("VarObjectIs", v), Chk: "object", Arg: a}
 	case 9:
 		a := pick(rng, tagPool)
-		return Atom{Src: mv + ".Node.Is(" + q(a) + ")", Vars: []string{v}, Chk: "tag", Arg: a}
+		return Atom{Src: mv + ".Node.Is(" + q(a) + ")", Vars: []string{v}, Uses: u("VarNodeIs", v), Chk: "tag", Arg: a}
 	case 10:
 		a := pick(rng, verPool)
 		m := []string{"Eq", "LessThan", "GreaterThan", "LessEqThan", "GreaterEqThan"}[rng.Intn(5)]
 		return Atom{Src: "m.GoVersion()." + m + "(" + q(a) + ")", Chk: "version", Arg: a}
 	case 11:
-		return Atom{Src: mv + ".Type.Size == " + mw + ".Type.Size", Vars: []string{v, w}}
+		return Atom{Src: mv + ".Type.Size == " + mw + ".Type.Size", Vars: []string{v, w}, Uses: u("VarTypeSize", v, "VarTypeSize", w), Chk: "binary", Eq: true, L: "size", R: "size"}
 	case 12:
-		return Atom{Src: mv + ".Value.Int() > " + mw + ".Value.Int()", Vars: []string{v, w}}
+		return Atom{Src: mv + ".Value.Int() > " + mw + ".Value.Int()", Vars: []string{v, w}, Uses: u("VarValueInt", v, "VarValueInt", w), Chk: "binary", Eq: false, L: "valueint", R: "valueint"}
 	case 13:
 		return Atom{Src: "m.Deadcode()"}
 	case 14:
-		return Atom{Src: mv + ".Addressable", Vars: []string{v}}
+		return Atom{Src: mv + ".Addressable", Vars: []string{v}, Uses: u("VarAddressable", v)}
 	case 15:
-		return Atom{Src: mv + ".Text != " + mw + ".Text", Vars: []string{v, w}}
+		return Atom{Src: mv + ".Text != " + mw + ".Text", Vars: []string{v, w}, Uses: u("VarText", v, "VarText", w), Chk: "binary", Eq: true, L: "text", R: "text"}
 	default:
 		a := pick(rng, tagPool)
 		return Atom{Src: `m["$$"].Node.Parent().Is(` + q(a) + ")", Vars: []string{"$$"}, Chk: "tag", Arg: a}
@@ -312,7 +366,7 @@ func genTemplateRule(rng *rand.Rand) RuleDesc {
 	}
 	d.Atoms = []Atom{}
 	if rng.Intn(2) == 0 {
-		a := Atom{Src: `m["x"].Pure`, Vars: []string{"x"}}
+		a := Atom{Src: `m["x"].Pure`, Vars: []string{"x"}, Uses: u("VarPure", "x"), Extra: []string{}}
 		d.Atoms = append(d.Atoms, a)
 		d.Where = a.Src
 	}
@@ -394,7 +448,14 @@ func bq(s string) string {
 
 func renderRule(d RuleDesc) string {
 	var sb strings.Builder
-	sb.WriteString("package gorules\n\nimport \"github.com/quasilyte/go-ruleguard/dsl\"\n\nconst (\n\tcA = \"a\"\n\tcB = \"b\"\n\tc4 = 4\n\tc8 = 8\n)\n\nfunc g(m dsl.Matcher) {\n\tm.")
+	sb.WriteString("package gorules\n\nimport \"github.com/quasilyte/go-ruleguard/dsl\"\n\nconst (\n\tcA = \"a\"\n\tcB = \"b\"\n\tc4 = 4\n\tc8 = 8\n)\n\n")
+	for _, a := range d.Atoms {
+		if a.Decl {
+			sb.WriteString("func flt(ctx *dsl.VarFilterContext) bool { return true }\n\n")
+			break
+		}
+	}
+	sb.WriteString("func g(m dsl.Matcher) {\n\tm.")
 	var alts []string
 	for _, a := range d.Alts {
 		alts = append(alts, bq(a.Src))
@@ -628,6 +689,22 @@ func shiftProblem(fset *token.FileSet, src []byte, o Obs) string {
 	return ""
 }
 
+// irDiff converts the file with the engine's own converter and compares the variable uses of the rule's Where expression with the
+// ones the description lists ("" = they agree, or the file does not convert)
+func irDiff(fset *token.FileSet, src []byte, d *RuleDesc) string {
+	f, err := ruleguard.VerifConvertAST(ruleguard.NewEngine(), &ruleguard.LoadContext{Fset: fset}, "rules.go", src)
+	if err != nil || f == nil || len(f.RuleGroups) != 1 || len(f.RuleGroups[0].Rules) != 1 {
+		return ""
+	}
+	var uses, extra []string
+	irUses(f.RuleGroups[0].Rules[0].WhereExpr, &uses, &extra)
+	du, de := descUses(d)
+	if !sameMultiset(uses, du) || !sameMultiset(extra, de) {
+		return fmt.Sprintf("IR: uses %v extra %v; description: uses %v extra %v", uses, extra, du, de)
+	}
+	return ""
+}
+
 type Case struct {
 	Shift  string    `json:"shift,omitempty"` // the named line does not move with the source (see shiftProblem)
 	Stream string    `json:"stream"`
@@ -638,6 +715,10 @@ type Case struct {
 	Run    string    `json:"run,omitempty"` // panic / error of Run on the probe file
 	NilRep int       `json:"nil_reports"`
 	NRep   int       `json:"nrep"`
+	// dsl: the (op, variable) uses the description lists differ from the ones of the converted IR
+	IRDiff string `json:"ir_diff,omitempty"`
+	// hist: the Loads of the history, in order; Obs is the first one that violates the property (else the last one)
+	Steps []HistStep `json:"steps,omitempty"`
 }
 
 // Begin announces a case before it is loaded: if the process dies, the supervisor knows which input did it.
@@ -661,6 +742,8 @@ func main() {
 	nstruct := flag.Int("struct", 300, "cases of stream struct")
 	repo := flag.String("repo", "/repo", "repository (fixture rules files)")
 	tmp := flag.String("tmp", "", "scratch directory")
+	nhist := flag.Int("hist", 60, "random cases of stream hist (the systematic ones are always run)")
+	ops := flag.String("ops", "", "the regenerated filter-op table (go2coq optable)")
 	child := flag.Bool("child", false, "internal: generate and load (run by the supervisor)")
 	skip := flag.Int("skip", 0, "internal: generate but do not load the cases up to this id")
 	flag.Parse()
@@ -669,6 +752,19 @@ func main() {
 	}
 	hutil.ChildInit()
 	rng := rand.New(rand.NewSource(*seed))
+	if *ops != "" {
+		if err := loadOpTable(*ops); err != nil {
+			fmt.Fprintln(os.Stderr, "c06:", err)
+			os.Exit(3)
+		}
+		// every op that takes a variable has a generator (checked before any case is announced)
+		for _, op := range varOps {
+			if _, err := opAtom(rand.New(rand.NewSource(1)), op, "x"); err != nil {
+				fmt.Fprintln(os.Stderr, "c06:", err)
+				os.Exit(3)
+			}
+		}
+	}
 	stdout := bufio.NewWriterSize(os.Stdout, 1<<16)
 	defer stdout.Flush()
 	enc := json.NewEncoder(stdout)
@@ -764,9 +860,19 @@ func main() {
 		}
 		emit(c, true)
 	}
-	// ---- dsl
-	for i := 0; i < *ndsl; i++ {
-		d := genRule(rng)
+	// ---- dsl: first the systematic probes (every op that takes a variable x unbound / partly bound variable), then random rules
+	probes, err := opProbeRules(rand.New(rand.NewSource(*seed + 77)))
+	if err != nil {
+		fmt.Fprintln(os.Stderr, "c06:", err)
+		os.Exit(3)
+	}
+	for i := 0; i < len(probes)+*ndsl; i++ {
+		var d RuleDesc
+		if i < len(probes) {
+			d = probes[i]
+		} else {
+			d = genRule(rng)
+		}
 		src := renderRule(d)
 		if !begin("dsl", src) {
 			continue
@@ -774,10 +880,58 @@ func main() {
 		c := Case{Stream: "dsl", ID: id, Src: src, Rule: &d}
 		var e *ruleguard.Engine
 		e, c.Obs = loadObs(t.Fset, []byte(src))
-		if i%3 == 0 {
+		if i%3 == 0 && i >= len(probes) {
 			c.Shift = shiftProblem(t.Fset, []byte(src), c.Obs)
 		}
+		if len(opTable) > 0 && ((i >= len(probes) && i%5 == 1) || (i < len(probes) && i%3 == 0)) {
+			c.IRDiff = irDiff(t.Fset, []byte(src), &d)
+		}
 		runIt(&c, e)
+		emit(c, true)
+	}
+	// ---- hist
+	nbad := nSystematic()
+	lctx := func() *ruleguard.LoadContext { return &ruleguard.LoadContext{Fset: t.Fset} }
+	hung := 0
+	for i := 0; i < nbad+*nhist; i++ {
+		h := genHistory(rng, i)
+		if hung >= 3 { // three histories with a Load that never returns (35 s each) are enough failing inputs
+			break
+		}
+		var files []string
+		var parts []string
+		for k, f := range h {
+			files = append(files, f.render(k+1))
+			parts = append(parts, fmt.Sprintf("// ==== Load #%d on the same engine: %s\n%s", k+1, f.name, files[k]))
+		}
+		src := strings.Join(parts, "\n")
+		if !begin("hist", src) {
+			continue
+		}
+		var obs []Obs
+		for try := 0; try < 4; try++ {
+			obs = runHistory(lctx, files, 5*time.Second)
+			if histHasTimeout(obs) {
+				obs = runHistory(lctx, files, 30*time.Second)
+			}
+			if !histFlaky(obs) {
+				break
+			}
+		}
+		if histHasTimeout(obs) {
+			hung++
+		}
+		c := Case{Stream: "hist", ID: id, Src: src}
+		for k, o := range obs {
+			c.Steps = append(c.Steps, HistStep{What: h[k].name, Want: h[k].ok, Obs: o})
+		}
+		c.Obs = obs[len(obs)-1]
+		for _, o := range obs {
+			if o.Kind == "panic" || o.Kind == "timeout" || (o.Kind == "error" && !o.Located) {
+				c.Obs = o
+				break
+			}
+		}
 		emit(c, true)
 	}
 	// ---- struct
